@@ -140,6 +140,7 @@ def canon_sandbox(S):
 # --------------------------------------------------- process-state scanning
 
 _BASELINE = None
+_SHARED = {}
 
 
 def _scan(S):
@@ -227,6 +228,32 @@ def do_lib_op(op, S):
             if op.endswith(":solo"):
                 root = os.path.join(S, "solo")
             plen = 2 * P0 if op.endswith(":p32") else P0
+            if v == "cfg":
+                # create through a configuration file: `full` names comment,
+                # source, private and trackers, `bare` nothing but the output
+                kind = op.split(":")[2]
+                cfg = os.path.join(S, f"cfg_{kind}.ini")
+                lines = ["[config]", f"out = {mpath}", "piece-length = 14"]
+                if kind == "full":
+                    lines += ["comment = from config", "source = cfg",
+                              "private = true", "meta-version = 3",
+                              "announce =", "    http://c/a", "    http://c/b"]
+                with open(cfg, "w") as f:
+                    f.write("\n".join(lines) + "\n")
+                tf.cli.execute(["create", "--config", "--config-path", cfg,
+                                "--prog", "0", root])
+                os.remove(cfg)
+                with open(mpath, "rb") as f:
+                    return ("metafile", strip_date(f.read()))
+            if v == "listarg":
+                # library use: the content path travels at the end of a
+                # tracker list that the caller keeps and reuses
+                shared = _SHARED.setdefault(S, ["http://t/a", "http://t/b",
+                                                root])
+                tf.torrent.TorrentFile(announce=shared, piece_length=P0,
+                                       outfile=mpath, progress=0).write()
+                with open(mpath, "rb") as f:
+                    return ("metafile", strip_date(f.read()))
             if v == "1":
                 tf.torrent.TorrentFile(path=root, piece_length=plen,
                                        outfile=mpath, progress=0).write()
@@ -426,6 +453,13 @@ class HistoryCheck:
             for k2 in kinds:
                 if k1 != k2:
                     out.append(["grow:a", f"create:{k1}:p32", f"create:{k2}"])
+        # two different configuration files in one process; a caller-owned
+        # argument list used for two creates
+        out.append(["create:cfg:full", "create:cfg:bare"])
+        out.append(["create:cfg:bare", "create:cfg:full", "create:cfg:bare"])
+        out.append(["create:cfg:full", "create:1", "create:cfg:bare"])
+        out.append(["create:listarg", "create:listarg"])
+        out.append(["create:listarg", "add:n", "create:listarg"])
         return out
 
     def run_group(self, g):
